@@ -79,6 +79,7 @@ type Verifier struct {
 	assumeCount int
 	trustedUsed map[string]bool
 	pruneN      int
+	partialSkipped int
 	measure0    string // termination measure at entry (functions with a decreases clause)
 }
 
@@ -357,6 +358,13 @@ func (v *Verifier) emit(st *State, kind, label, goal string, props []string, tex
 }
 
 func (v *Verifier) emit1(st *State, kind, label, goal string, props []string, text string, in ssa.Instruction) *Obligation {
+	if v.contract != nil && v.contract.Partial {
+		if strings.HasPrefix(kind, "nopanic") || kind == "pre" || strings.HasPrefix(kind, "frame") || kind == "own" || kind == "dec.call" {
+			// partial contract: implicit obligations are not claimed (they are assumed to hold)
+			v.partialSkipped++
+			return &Obligation{ID: "skipped"}
+		}
+	}
 	id := v.key + "/" + kind
 	if label != "" {
 		id += "." + label
@@ -535,6 +543,10 @@ func (v *Verifier) run() (res *FuncResult) {
 		res.Notes = v.notes
 		res.Paths = v.paths
 		res.Assumes = v.assumeCount
+		if v.partialSkipped > 0 {
+			v.notes = append(v.notes, fmt.Sprintf("partial contract: %d implicit obligations (no-panic, callee preconditions, frame) of %s are assumed, not proved", v.partialSkipped, v.key))
+			res.Notes = v.notes
+		}
 		res.Trusted = sortedNames(v.trustedUsed)
 	}()
 	if len(v.fn.Blocks) == 0 {
@@ -597,6 +609,12 @@ func (v *Verifier) run() (res *FuncResult) {
 			v.notes = append(v.notes, "assume "+a.Label+": "+a.Text)
 		}
 		v.emitCover(st, "pre", "true", "precondition is satisfiable")
+		for _, en := range v.contract.Ensures {
+			if en.Assumed {
+				v.assumeCount++
+				v.notes = append(v.notes, "assume (unproved postcondition of "+v.key+", used at its call sites) "+en.Label+": "+en.Text)
+			}
+		}
 		if v.contract.Decreases != nil {
 			v.measure0 = se.eval(v.contract.Decreases.E).T
 		}
@@ -668,9 +686,10 @@ func (v *Verifier) autoInvariants(li *loopInfo) []*Clause {
 		}
 		idx := i
 		lit := bigLit(init.Value.ExactString())
-		out = append(out, &Clause{Label: fmt.Sprintf("auto%d.lo", i), Text: fmt.Sprintf("phi%d >= %s (inferred counter bound)", i, init.Value.ExactString()),
-			Raw: func(phis []Value, operand func(interface{}) string) string { return "(>= " + phis[idx].T + " " + lit + ")" }})
-		// guard of the form (phi + c) < X in the head block, X defined outside the loop
+		lo := &Clause{Label: fmt.Sprintf("auto%d.lo", i), Text: fmt.Sprintf("phi%d >= %s (inferred counter bound)", i, init.Value.ExactString()),
+			Raw: func(phis []Value, operand func(interface{}) string) string { return "(>= " + phis[idx].T + " " + lit + ")" }}
+		// guard of the form (phi + c) < X in the head block, X defined outside the loop; the lower
+		// bound alone is not inductive (wrap-around), so both bounds are added together or not at all
 		if step != nil && step.Block() == li.head {
 			if ifi, ok := li.head.Instrs[len(li.head.Instrs)-1].(*ssa.If); ok {
 				if cmp, ok := ifi.Cond.(*ssa.BinOp); ok && cmp.Op == token.LSS && cmp.X == ssa.Value(step) {
@@ -680,6 +699,7 @@ func (v *Verifier) autoInvariants(li *loopInfo) []*Clause {
 					}
 					if outside {
 						bound := cmp.Y
+						out = append(out, lo)
 						out = append(out, &Clause{Label: fmt.Sprintf("auto%d.hi", i), Text: fmt.Sprintf("phi%d < loop bound (inferred counter bound)", i),
 							Raw: func(phis []Value, operand func(interface{}) string) string {
 								return "(< " + phis[idx].T + " " + operand(bound) + ")"
@@ -970,11 +990,45 @@ func (v *Verifier) loopBack(li *loopInfo, st *State, phis []*ssa.Phi, vals []Val
 func (v *Verifier) havocLoop(li *loopInfo, st *State) {
 	maps := map[string]string{} // name -> sort
 	all := false
+	// local cells (address-taken / captured variables) written in the loop: only those cells are
+	// havocked, the other cells of the same sort keep their values
+	cellRefs := map[string][]string{}
+	cellWhole := map[string]bool{}
 	for b := range li.body {
 		for _, in := range b.Instrs {
 			switch x := in.(type) {
 			case *ssa.Store:
+				if al, ok := x.Addr.(*ssa.Alloc); ok {
+					if pv, ok := st.regs[al]; ok && pv.Addr != nil && pv.Addr.Kind == "cell" {
+						cellRefs[pv.Addr.Map] = append(cellRefs[pv.Addr.Map], pv.Addr.Obj)
+						maps[pv.Addr.Map] = arr("Int", v.env.sr.sortOf(pv.Addr.ElemT))
+						continue
+					}
+				}
+				before := len(maps)
+				_ = before
+				pre := map[string]bool{}
+				for n := range maps {
+					pre[n] = true
+				}
 				v.storeTargets(x.Addr, x.Val.Type(), maps)
+				for n := range maps {
+					if strings.HasPrefix(n, "C!") && !pre[n] {
+						cellWhole[n] = true
+					}
+				}
+				if _, isAlloc := x.Addr.(*ssa.Alloc); !isAlloc {
+					// store through a pointer of unknown origin into a cell map
+					if pt, ok := x.Addr.Type().Underlying().(*types.Pointer); ok {
+						if _, isStruct := pt.Elem().Underlying().(*types.Struct); !isStruct {
+							if _, isFA := x.Addr.(*ssa.FieldAddr); !isFA {
+								if _, isIA := x.Addr.(*ssa.IndexAddr); !isIA {
+									cellWhole[cellMapName(v.env.sr.sortOf(pt.Elem()))] = true
+								}
+							}
+						}
+					}
+				}
 			case *ssa.MapUpdate:
 				mt := x.Map.Type().Underlying().(*types.Map)
 				mv, mp, vs, ks := v.env.mapNames(mt)
@@ -1013,6 +1067,16 @@ func (v *Verifier) havocLoop(li *loopInfo, st *State) {
 	}
 	sort.Strings(names)
 	for _, n := range names {
+		if refs, ok := cellRefs[n]; ok && !cellWhole[n] && !all && !v.callsWriteCells(li, n) {
+			srt := maps[n]
+			inner := strings.TrimSuffix(strings.TrimPrefix(srt, "(Array Int "), ")")
+			term := v.env.heapGet(st, n, srt)
+			for _, r := range refs {
+				term = sto(term, r, v.env.ctx.freshConst("hv."+n, inner))
+			}
+			v.env.heapSet(st, n, srt, term)
+			continue
+		}
 		v.env.heapHavoc(st, n, maps[n])
 	}
 	// the function's modifies clause is an implicit loop invariant: outside it (and outside
@@ -1027,6 +1091,34 @@ func (v *Verifier) havocLoop(li *loopInfo, st *State) {
 	na := v.env.ctx.freshConst("alloc", "Int")
 	st.assume("(>= " + na + " " + st.alloc + ")")
 	st.alloc = na
+}
+
+// callsWriteCells: does some call inside the loop possibly modify cell map n?
+func (v *Verifier) callsWriteCells(li *loopInfo, n string) bool {
+	for b := range li.body {
+		for _, in := range b.Instrs {
+			var cc *ssa.CallCommon
+			switch x := in.(type) {
+			case *ssa.Call:
+				cc = x.Common()
+			case *ssa.Defer:
+				cc = x.Common()
+			case *ssa.Go:
+				return true
+			}
+			if cc == nil {
+				continue
+			}
+			m := map[string]string{}
+			if v.callMods(cc, m) {
+				return true
+			}
+			if _, ok := m[n]; ok {
+				return true
+			}
+		}
+	}
+	return false
 }
 
 // storeTargets computes the heap maps a store through addr may write.
@@ -1866,6 +1958,9 @@ func (v *Verifier) doReturn(st *State, x *ssa.Return) {
 	locals := map[string]Value{}
 	v.localVarsAll(st, x.Block(), locals)
 	for _, en := range v.contract.Ensures {
+		if en.Assumed {
+			continue
+		}
 		se.witness = nil
 		if len(en.Witness) > 0 {
 			se.witness = map[string]Value{}
